@@ -117,12 +117,38 @@ class Frame:
         ov = V.cur().ghost.get("globals") if V._current else None
         if ov and name in ov:
             return ov[name]
+        cell = self._real_closure_cell(name)
+        if cell is not None:
+            return cell[0]
         g = self.mod.real.__dict__
         if name in g:
             return g[name]
         if hasattr(_bi, name):
             return getattr(_bi, name)
         raise PyRaise(SExc(NameError, (name,)))
+
+    def _real_closure_cell(self, name):
+        """A free variable of a method of a class that was created inside a function call (e.g. the mixin classes made
+        by `delegate_to_widget_mixin(attribute_name)`): the enclosing call is long over, so the variable's value is
+        what the REAL function object's closure cell holds (CPython: `fn.__closure__[fn.__code__.co_freevars.index(name)]`).
+        Only for methods reached through a real class (`defcls`) whose qualified name has a `<locals>` part; returns a
+        1-tuple (value,) or None.  Cross-check: tools/xc_truth.py."""
+        f = self
+        while f is not None and (f.fn is None or f.fn.defcls is None):
+            f = f.parent
+        if f is None or "<locals>" not in getattr(f.fn.defcls, "__qualname__", ""):
+            return None
+        raw = inspect.getattr_static(f.fn.defcls, f.fn.ref.node.name, None)
+        if isinstance(raw, property):
+            raw = raw.fset if f.fn.ref.role == "setter" else raw.fget
+        raw = getattr(raw, "__func__", raw)
+        code, cells = getattr(raw, "__code__", None), getattr(raw, "__closure__", None)
+        if code is None or not cells or name not in code.co_freevars:
+            return None
+        try:
+            return (cells[code.co_freevars.index(name)].cell_contents,)
+        except ValueError:  # empty cell
+            return None
 
     def assign(self, name, value, nonlocal_names=()):
         if name in getattr(self, "global_names", ()):
